@@ -38,10 +38,18 @@ ALPHA = {
           ("det", {"bp": [100]}), ("filt", 1.0, 2, "lowpass"), ("filt", [0.25, 1.75], 3, "bandpass"), ("rb",), ("add",),
           ("dec", 4, {"n": 5}), ("readd",)],
 }
+# calls SciPy itself refuses (unknown ftype / type / btype value, Wn above Nyquist; on the short records of the "R"
+# configurations also the IIR decimation / filtering of a record that repeated decimation made too short for the padding)
+REFUSED = [("det", {"type": "quadratic"}), ("dec", 2, {"ftype": "cheby"}), ("filt", 1.5, 4, "notch"), ("filt", 5000.0, 2, "lowpass")]
+ALPHA["R"] = [("dec", 3, {}), ("dec", 2, {})] + REFUSED + [("filt", 1.0, 2, "lowpass"), ("add",), ("readd",), ("rb",)]
 # malformed stream: undocumented keyword names (TypeError expected), one per method that takes **kwargs
 BAD_OPS = [("dec", 2, {"foo": 1}), ("det", {"typ": "linear"}), ("dec", 3, {"ftype": "fir", "order": 8}), ("det", {"type": "linear", "breakpoints": [10]})]
 
 METHOD = {"dec": "decimate_data", "det": "detrend_data", "filt": "filter_data", "rb": "rollback", "add": "add_algorithms", "readd": "add_algorithms"}
+
+
+def undocumented(op):
+    return op[0] in ("dec", "det") and any(k not in (("n", "ftype", "zero_phase") if op[0] == "dec" else ("type", "bp")) for k in op[-1])
 
 
 def op_key(op):
@@ -73,19 +81,32 @@ def coq_op(op):
         wn = op[1]
         w = "(W2 %s %s)" % (qc(wn[0]), qc(wn[1])) if isinstance(wn, (list, tuple)) else "(W1 %s)" % qc(wn)
         return '(Filter %s %d%%nat "%s")' % (w, op[2], op[3])
+    if op[0] == "scipyraises":
+        return "ScipyRaises"
     return "Rollback" if op[0] == "rb" else "(AddAlg %d%%nat)" % op[1]
 
 
-def model_ops(ops):
-    """The model's view of a history: every add_algorithms names the algorithm INSTANCE it passes (fresh instance = the
-    call's position; re-added instance = the name of the one added last)."""
-    out, last = [], None
+def model_ops(cfg, ops):
+    """The model's view of a history.  Every add_algorithms names the algorithm INSTANCE it passes (fresh instance = the
+    call's position; re-added instance = the name of the one added last).  SciPy is not modelled: a documented call that
+    SciPy itself refuses on the present data (the harness's own SciPy evaluation raises) is handed over as ScipyRaises; a
+    call that raises is a no-op, the history continues from the unchanged state."""
+    out, last, since = [], None, []
     for i, op in enumerate(ops, 1):
         if op[0] in ("add", "readd"):
             last = i if (op[0] == "add" or last is None) else last
             out.append(("add", last))
+            since = since + [op]
+        elif op[0] == "rb":
+            out.append(op)
+            since = []
+        elif undocumented(op):
+            out.append(op)           # the model itself answers TypeError
+        elif isinstance(reference(cfg, since + [op])[0], Exception):
+            out.append(("scipyraises",))
         else:
             out.append(op)
+            since = since + [op]
     return out
 
 
@@ -122,9 +143,11 @@ def make_data(seed, shapes):
 
 
 class Cfg:
-    def __init__(self, single, fs0, shapes, refs, data_seed, alpha):
+    def __init__(self, single, fs0, shapes, refs, data_seed, alpha, fs_kind="float"):
         self.single = bool(single)
         self.fs0 = float(fs0)
+        self.fs_kind = fs_kind       # how fs is handed to the constructor: "float", "int" (Python int) or "int64" (numpy)
+        assert fs_kind == "float" or self.fs0 == int(self.fs0)
         self.shapes = [tuple(int(v) for v in s) for s in shapes]
         self.refs = [[int(v) for v in r] for r in refs]
         self.data_seed = int(data_seed)
@@ -137,7 +160,10 @@ class Cfg:
         self.ref_memo = {}
 
     def desc(self):
-        return dict(cls=self.cls, fs0=self.fs0, shapes=[list(s) for s in self.shapes], refs=self.refs, data_seed=self.data_seed)
+        return dict(cls=self.cls, fs0=self.fs0, fs_kind=self.fs_kind, shapes=[list(s) for s in self.shapes], refs=self.refs, data_seed=self.data_seed)
+
+    def fs_arg(self):
+        return {"float": float, "int": int, "int64": np.int64}[self.fs_kind](self.fs0)
 
     def coq_args(self):
         refs = clist([clist(["%d" % v for v in r]) for r in self.refs]) + "%nat"
@@ -211,8 +237,11 @@ def parse_view(s, cur_i):
 
 
 def parse_state(s):
+    err = None
     if s.startswith("E:"):
-        return {"err": s[2:]}
+        if "!" not in s:
+            return {"err": s[2:]}            # the constructor raised
+        err, s = s[2:].split("!", 1)          # this call raised; the (unchanged) state follows
     f = s.split("|")
     assert len(f) == 8, s
     terms = []
@@ -231,8 +260,11 @@ def parse_state(s):
         a, b = f[7].split("@", 1)
         nm, a = a.split(":", 1)
         last = (parse_q(a), views(b), int(nm))
-    return dict(fs=parse_q(f[0]), dt=parse_q(f[1]), Ndats=[int(x) for x in f[2].split()], Ts=[parse_q(x) for x in f[3].split()],
-                cur=terms, data=views(f[5]), nbound=int(f[6]), last=last)
+    st = dict(fs=parse_q(f[0]), dt=parse_q(f[1]), Ndats=[int(x) for x in f[2].split()], Ts=[parse_q(x) for x in f[3].split()],
+              cur=terms, data=views(f[5]), nbound=int(f[6]), last=last)
+    if err is not None:
+        st["err"] = err
+    return st
 
 
 def kw_dict(kw):
@@ -340,9 +372,9 @@ class Impl:
         self.algs = []   # [algorithm, since-at-(re)bind-time, site], one entry per instance
         self.last_alg = None
         if cfg.single:
-            self.obj = SingleSetup(self.user[0], fs=cfg.fs0)
+            self.obj = SingleSetup(self.user[0], fs=cfg.fs_arg())
         else:
-            self.obj = MultiSetup_PreGER(fs=cfg.fs0, ref_ind=self.user_refs, datasets=self.user_list)
+            self.obj = MultiSetup_PreGER(fs=cfg.fs_arg(), ref_ind=self.user_refs, datasets=self.user_list)
 
     def call(self, op, idx):
         o = self.obj
@@ -406,10 +438,12 @@ def view_ok(cfg, mview, handed_i):
     return split_ok(handed_i, arr, mview[2], mview[3])
 
 
-def check_state(ctx, rec, cfg, im, ops, i, since, q_last, mstates, case, reported, full=True):
+def check_state(ctx, rec, cfg, im, ops, i, since, q_last, mstates, case, reported, full=True, raised=False):
     """After call number i (0 = construction): the property text and (full) the model state against the object.
     full=False: sampling attributes and the user's arrays only (every call of every history); an attribute already
-    reported wrong earlier in this history is not reported again (the call that broke it is the one named)."""
+    reported wrong earlier in this history is not reported again (the call that broke it is the one named).
+    raised=True: call number i raised; `since` is then the history WITHOUT it, i.e. every observable must be what it was
+    before the call.  mstates=None: no model state for this call (only the last call of an enumerated word has one)."""
     cls = cfg.cls
     site = "%s.%s" % (cls, METHOD[ops[i - 1][0]] if i else "__init__")
     o = im.obj
@@ -418,7 +452,9 @@ def check_state(ctx, rec, cfg, im, ops, i, since, q_last, mstates, case, reporte
     def fail(what, text, key=None):
         if what not in reported:
             reported.add(what)
-            rec.fail("oracle", text, case, key or "C14:%s:%s" % (site, what))
+            if raised:
+                text = "%s RAISED, so every observable must be what it was before the call, but: %s" % (site, text)
+            rec.fail("oracle", text, case, key or "C14:%s:%s%s" % (site, what, "-after-raise" if raised else ""))
 
     # ---------- oracle: property text
     try:
@@ -458,12 +494,12 @@ def check_state(ctx, rec, cfg, im, ops, i, since, q_last, mstates, case, reporte
             fail("initial-copy-modified", "%s modified the stored initial copy" % site)
         if getattr(o, "_initial_fs", cfg.fs0) != cfg.fs0 or (not cfg.single and getattr(o, "_initial_ref_ind", cfg.refs) != cfg.refs):
             fail("initial-copy-modified", "%s modified the stored initial fs / reference layout" % site)
-    if not full:
+    if not full or mstates is None:
         return
     # ---------- correspondence: model state
     ms = mstates[0]
-    if "err" in ms:
-        rec.fail("correspondence", "%s succeeded, model says %s" % (site, ms["err"]), case, "C14:%s:corr-raise" % cls)
+    if ("err" in ms) != raised or "fs" not in ms:
+        rec.fail("correspondence", "%s %s, model says %s" % (site, "raised" if raised else "succeeded", ms.get("err", "no exception")), case, "C14:%s:corr-raise" % cls)
         return
     try:
         bad = []
@@ -474,7 +510,7 @@ def check_state(ctx, rec, cfg, im, ops, i, since, q_last, mstates, case, reporte
         if [int(n) for n in im.counts()] != ms["Ndats"]:
             bad.append("Ndat")
         Tg = im.durations()
-        if not any(len(Tg) == len(m["Ts"]) and all(relclose(a, b) for a, b in zip(Tg, m["Ts"])) for m in mstates if "err" not in m):
+        if not any(len(Tg) == len(m["Ts"]) and all(relclose(a, b) for a, b in zip(Tg, m["Ts"])) for m in mstates if "Ts" in m):
             bad.append("T")
         got = im.datasets()
         if len(got) != len(ms["cur"]):
@@ -537,7 +573,7 @@ def run_history(ctx, rec, cfg, ops, model, all_steps):
         rec.fail("correspondence", "%s(...) accepted a layout the model rejects (%s)" % (cfg.cls, model[0][0]["err"]), case, "C14:%s:corr-init" % cfg.cls)
         return False
     since, q_last, reported = [], None, set()
-    names = [o[1] if o[0] == "add" else None for o in model_ops(ops)]
+    names = [o[1] if o[0] == "add" else None for o in model_ops(cfg, ops)]
     if all_steps or not ops:
         check_state(ctx, rec, cfg, im, ops, 0, since, q_last, [m[0] for m in model], dict(case, step=0), reported)
     for i, op in enumerate(ops, 1):
@@ -548,7 +584,7 @@ def run_history(ctx, rec, cfg, ops, model, all_steps):
             mst = [m[min(i, len(m) - 1)] for m in model]
         else:
             mst = [m[0] for m in model] if i == len(ops) else None
-        undocumented = op in BAD_OPS or (op[0] in ("dec", "det") and any(k not in (("n", "ftype", "zero_phase") if op[0] == "dec" else ("type", "bp")) for k in op[-1]))
+        undoc = undocumented(op)
         try:
             alg = im.call(op, i)
             raised = None
@@ -556,22 +592,21 @@ def run_history(ctx, rec, cfg, ops, model, all_steps):
             raised = e
         step_case = dict(case, step=i)
         if raised is not None:
-            if undocumented:
-                if mst is not None and "err" not in mst[0]:
-                    rec.fail("correspondence", "%s raised %s, model accepts" % (site, type(raised).__name__), step_case, "C14:%s:corr-raise" % cfg.cls)
-                ctx.hist("stopped", "undocumented-keyword:" + type(raised).__name__)
+            if not undoc and not isinstance(want, Exception):
+                rec.fail("oracle", "%s(%s) raised %s: %s; every documented keyword must be accepted" % (site, json.dumps(op[1:]), type(raised).__name__, str(raised)[:200]),
+                         step_case, "C14:%s:raises-%s" % (site, type(raised).__name__))
                 return False
-            if isinstance(want, Exception):
-                ctx.not_judged += 1       # SciPy itself refuses these data (too short, Wn above Nyquist): same calls, same refusal
-                ctx.hist("stopped", "scipy-refuses:" + type(want).__name__)
-                return False
-            rec.fail("oracle", "%s(%s) raised %s: %s; every documented keyword must be accepted" % (site, json.dumps(op[1:]), type(raised).__name__, str(raised)[:200]),
-                     step_case, "C14:%s:raises-%s" % (site, type(raised).__name__))
-            return False
-        if isinstance(want, Exception) and not undocumented:
+            # an undocumented keyword, or a call SciPy itself refuses on these data (record too short for the padding, unknown
+            # ftype/type/btype, Wn above Nyquist): EVERY observable must be what it was before the call; the history goes on
+            ctx.hist("raised", ("undocumented-keyword:" if undoc else "scipy-refuses:") + type(raised).__name__)
+            check_state(ctx, rec, cfg, im, ops, i, since, q_last, mst, step_case, reported, full=True, raised=True)
+            for a_, s_at, site_a in im.algs:
+                check_alg(ctx, rec, cfg, a_, s_at, None, site_a, step_case, "after a later call that raised")
+            continue
+        if isinstance(want, Exception) and not undoc:
             rec.fail("oracle", "%s succeeded where the same SciPy call on the same data raises %s" % (site, type(want).__name__), step_case, "C14:%s:no-raise" % site)
             return False
-        if undocumented:
+        if undoc:
             if mst is not None and "err" in mst[0]:
                 rec.fail("correspondence", "%s accepted an undocumented keyword, model says %s" % (site, mst[0]["err"]), step_case, "C14:%s:corr-raise" % cfg.cls)
             return False
@@ -611,7 +646,7 @@ def model_eval(ctx, letters, jobs, chunk):
         variants = ["true", "false"] if cfg.single else ["false"]   # present-code duration formula first for SingleSetup
         for k in range(0, len(idxs), chunk):
             part = idxs[k:k + chunk]
-            hs = clist([clist([letters.name(o) for o in model_ops(jobs[j][1])]) for j in part])
+            hs = clist([clist([letters.name(o) for o in model_ops(cfg, jobs[j][1])]) for j in part])
             for v, pc in enumerate(variants):   # the second variant differs in the durations only (C14_present_same_but_T): print those
                 fn = ("showTraces" if all_steps else "showFinals") if v == 0 else ("showTsTraces" if all_steps else "showTsFinals")
                 exprs.append("%s %s %s %s" % (fn, pc, cfg.coq_args(), hs))
@@ -643,7 +678,9 @@ def random_cfg(rng, seed, alpha):
         shapes.append((rng.choice([760, 777, 800, 810, 840, 864, 900]), c))
         r = rng.sample(range(c), rng.randint(1, c - 1))   # any subset, any order, at least one roving channel
         refs.append(r)
-    return Cfg(single, rng.choice([1024.0, 1000.0, 1250.0, 2048.0, 800.5]), shapes, [] if single else refs, seed, alpha)
+    fs0, kind = rng.choice([(1024.0, "float"), (1000.0, "float"), (1250.0, "float"), (2048.0, "float"), (800.5, "float"), (100.0, "float"),
+                            (100, "int"), (128, "int"), (120, "int64"), (100, "int64")])
+    return Cfg(single, fs0, shapes, [] if single else refs, seed, alpha, kind)
 
 
 def run(ctx):
@@ -651,11 +688,12 @@ def run(ctx):
     letters = Letters()
     ctx.extra["rule"] = ("histories = every word of length 1..L (L=3 quick, 4 thorough) over 10-letter alphabets of calls (add_algorithms both with a fresh instance and with the instance added last), on fixed and random "
                          "SingleSetup / MultiSetup_PreGER configurations (1-3 datasets, 2-5 channels, any reference layout), plus sampled words of "
-                         "length 5 checked after every call, plus a malformed stream (undocumented keywords, invalid reference layouts); a history is "
+                         "length 5 checked after every call, plus a malformed stream (undocumented keywords, invalid reference layouts) and calls SciPy refuses (short records, unknown ftype/type/btype, Wn above Nyquist: the call must change nothing and the history continues); fs is handed over as float, Python int or numpy int64; a history is "
                          "non-trivial when it contains at least one data-changing call; distinct by hash of (configuration, history)")
     ctx.assumptions += [
         "SciPy is not modelled: data are symbolic terms; assumed shape contract rows(decimate(x,q)) = ceil(rows(x)/q), detrend/sosfiltfilt keep the shape (checked on every evaluated term)",
         "the harness evaluates model terms and the oracle's reference with scipy.signal.decimate/detrend/butter/sosfiltfilt of the installed SciPy (axis=0), arrays compared at 1e-9*scale, attributes at 1e-12",
+        "which documented calls SciPy refuses (ScipyRaises in the model) is decided by the harness's own SciPy evaluation of the same call on the same data",
         "keywords axis / overwrite_data (accepted by the code, outside the property's quantifier) are not exercised",
     ]
     # ---- corpus (failing histories of the repaired PreGER defects) and replay
@@ -664,7 +702,7 @@ def run(ctx):
     for fn in files:
         c = json.load(open(fn))
         c = c.get("case", c)
-        cfg = Cfg(c["cls"] == "SingleSetup", c["fs0"], c["shapes"], c["refs"], c["data_seed"], None)
+        cfg = Cfg(c["cls"] == "SingleSetup", c["fs0"], c["shapes"], c["refs"], c["data_seed"], None, c.get("fs_kind", "float"))
         ops = [tuple(o) for o in c["ops"]]
         jobs.append((cfg, ops, True))
         ctx.hist("source", "corpus")
@@ -672,13 +710,17 @@ def run(ctx):
     if not ctx.replay:
         rng = ctx.rng
         L = ctx.n(3, 4)
-        # (configuration, exhaustive word length): L on three configurations, L-1 on two more
+        # (configuration, exhaustive word length): L on three configurations, L-1 on two more; fs handed over as Python int,
+        # numpy int64 or float; PreGER layouts with unequal dataset lengths and unsorted reference indices; two configurations
+        # with SHORT records and the alphabet of refused calls (every word of length <= 3)
         fixed = [
-            (Cfg(True, 1024.0, [(800, 3)], [], 101, "A"), L),
-            (Cfg(True, 1000.0, [(864, 5)], [], 102, "B"), L - 1),
-            (Cfg(False, 1024.0, [(810, 2)], [[1]], 103, "A"), L - 1),
-            (Cfg(False, 1000.0, [(800, 3), (840, 4)], [[2, 0], [1, 3]], 104, "B"), L),
-            (Cfg(False, 1250.0, [(810, 5), (768, 2), (900, 4)], [[4, 1, 2], [0], [3]], 105, "C"), L),
+            (Cfg(True, 100, [(800, 3)], [], 101, "A", "int"), L),
+            (Cfg(True, 120, [(864, 5)], [], 102, "B", "int64"), L - 1),
+            (Cfg(False, 128, [(810, 2)], [[1]], 103, "A", "int64"), L - 1),
+            (Cfg(False, 1000.0, [(800, 3), (840, 4)], [[2, 0], [1, 3]], 104, "B", "float"), L),
+            (Cfg(False, 1250, [(810, 5), (768, 2), (900, 4)], [[4, 1, 2], [0], [3]], 105, "C", "int"), L),
+            (Cfg(True, 100, [(70, 3)], [], 106, "R", "int"), 3),
+            (Cfg(False, 120, [(200, 3), (64, 2)], [[2, 0], [1]], 107, "R", "int64"), 3),
         ]
         for cfg, Lc in fixed:
             for n in range(1, Lc + 1):
@@ -691,7 +733,7 @@ def run(ctx):
                 for w in itertools.product(ALPHA[cfg.alpha], repeat=n):
                     jobs.append((cfg, list(w), False))
         # sampled words of length 5 over all letters, random layouts, every call checked
-        allops = [o for a in "ABC" for o in ALPHA[a]]
+        allops = [o for a in "ABC" for o in ALPHA[a]] + REFUSED
         for k in range(ctx.n(150, 1500)):
             if k % 10 == 0:
                 cfg = random_cfg(rng, 5000 + k, None)
@@ -707,16 +749,7 @@ def run(ctx):
             jobs.append((Cfg(False, 1000.0, shapes, refs, 9500 + k, None), [("add",)], True))
     import time
     t0 = time.time()
-    # the model is evaluated by coqc subprocesses; meanwhile the oracle's SciPy reference is computed for every prefix
-    from concurrent.futures import ThreadPoolExecutor
-    with ThreadPoolExecutor(max_workers=1) as ex:
-        fut = ex.submit(model_eval, ctx, letters, jobs, ctx.n(40, 60))
-        for cfg, ops, _ in jobs:
-            since = []
-            for o in ops:
-                since = [] if o[0] == "rb" else since + [o]
-                reference(cfg, since)
-        model = fut.result()
+    model = model_eval(ctx, letters, jobs, ctx.n(40, 60))
     ctx.extra["model_eval_s"] = round(time.time() - t0, 1)
     t1 = time.process_time()
     for j, ((cfg, ops, all_steps), m) in enumerate(zip(jobs, model)):
@@ -725,6 +758,7 @@ def run(ctx):
         ctx.hist("class", cfg.cls)
         ctx.hist("length", len(ops))
         ctx.hist("datasets", len(cfg.shapes))
+        ctx.hist("fs given as", cfg.fs_kind)
         for o_ in ops:
             ctx.hist("call", METHOD[o_[0]] + ("(q=%d)" % o_[1] if o_[0] == "dec" else "(same instance)" if o_[0] == "readd" else ""))
         if j < ncorpus or (j % 997 == 0):
